@@ -109,9 +109,9 @@ pub fn gen_c05(seed: u64, sub: &str, idx: u64) -> Scenario {
 
 /// Enumerated fault grid for C06: (F frames, fault kind, position k, W, policy).
 pub fn c06_grid(tier: Tier) -> Vec<(usize, u8, usize, usize, usize)> {
-    let fs: &[usize] = &[1, 2, 3, 5, 8, 12];
-    let ws: &[usize] = tier.pick(&[1, 2, 4][..], &[1, 2, 3, 4, 8][..]);
-    let pols: &[usize] = tier.pick(&[0, 3, 2][..], &[0, 1, 2, 3, 4, 5, 6, 7][..]);
+    let fs: &[usize] = tier.pick(&[1, 2, 3, 5, 8, 12][..], &[1, 2, 3, 4, 5, 8, 12, 20][..]);
+    let ws: &[usize] = tier.pick(&[1, 2, 3, 4][..], &[1, 2, 3, 4, 8, 16][..]);
+    let pols: &[usize] = tier.pick(&[0, 3, 2, 7, 4][..], &[0, 1, 2, 3, 4, 5, 6, 7][..]);
     let mut g = vec![];
     for f in fs {
         for kind in 0u8..4 {
@@ -441,8 +441,8 @@ fn supervise_sub(ctx: &Ctx, sub: &str, n: u64, agg: &Arc<Mutex<ParAgg>>) {
 
 pub fn run_c05(ctx: &Ctx) -> i32 {
     let agg = Arc::new(Mutex::new(ParAgg { out: Outcome::default() }));
-    supervise_sub(ctx, "sched", ctx.tier.pick(640, 40_000), &agg);
-    supervise_sub(ctx, "env", ctx.tier.pick(52, 650), &agg);
+    supervise_sub(ctx, "sched", ctx.tier.pick(1600, 120_000), &agg);
+    supervise_sub(ctx, "env", ctx.tier.pick(104, 1300), &agg);
     let out = std::mem::take(&mut agg.lock().unwrap().out);
     let ooo = out.stats.get("runs_with_out_of_order_completion").copied().unwrap_or(0);
     let fin = Finish {
@@ -460,12 +460,12 @@ pub fn run_c06(ctx: &Ctx) -> i32 {
     let agg = Arc::new(Mutex::new(ParAgg { out: Outcome::default() }));
     let grid = c06_grid(ctx.tier).len() as u64;
     supervise_sub(ctx, "enum", grid, &agg);
-    supervise_sub(ctx, "combo", ctx.tier.pick(160, 4000), &agg);
-    supervise_sub(ctx, "faultfree", ctx.tier.pick(160, 4000), &agg);
+    supervise_sub(ctx, "combo", ctx.tier.pick(480, 16_000), &agg);
+    supervise_sub(ctx, "faultfree", ctx.tier.pick(480, 16_000), &agg);
     let out = std::mem::take(&mut agg.lock().unwrap().out);
     let fin = Finish {
         level: "fault_enumeration",
-        rule: "'enum' enumerates F in {1,2,3,5,8,12} frames x fault kind (read error at read k for every k in 0..=F; out-of-range sample at first/middle/last position of block k for every k < F) x W x schedule policy (quick: W in {1,2,4}, 3 policies; thorough: W in {1,2,3,4,8}, 8 policies); 'combo' = 2-4 random faults; 'faultfree' = no fault. Each scenario runs in a supervised child: the call must return (deadlock = all tasks in futex wait without CPU time/context switches for 20 samples), no thread may panic, the error kind must equal single-thread's for the same source, no helper thread may be alive at return (event log T5 + /proc/self/task), and fault-free runs satisfy T1-T4; distinct = distinct interleavings",
+        rule: "'enum' enumerates F in {1,2,3,5,8,12} (thorough: {1,2,3,4,5,8,12,20}) frames x fault kind (read error at read k for every k in 0..=F; out-of-range sample at first/middle/last position of block k for every k < F) x W x schedule policy (quick: W in {1,2,3,4}, 5 policies; thorough: W in {1,2,3,4,8,16}, 8 policies); 'combo' = 2-4 random faults; 'faultfree' = no fault. Each scenario runs in a supervised child: the call must return (deadlock = all tasks in futex wait without CPU time/context switches for 20 samples), no thread may panic, the error kind must equal single-thread's for the same source, no helper thread may be alive at return (event log T5 + /proc/self/task), and fault-free runs satisfy T1-T4; distinct = distinct interleavings",
         assumptions: vec!["a livelock that keeps switching context would be inconclusive (watchdog), not a violation".into()],
         exhaustive: Some(false),
         floors: vec![("scenarios that returned an error (fault manifested)".into(), out.stats.iter().filter(|(k, _)| k.starts_with("result_par_Err")).map(|(_, v)| *v).sum(), 100)],
